@@ -550,6 +550,8 @@ class _NP:
     def concatenate(self, arrs, axis=0):
         _use("concatenate")
         arrs = [as_array(a) for a in arrs]
+        if all(a.ndim == 2 for a in arrs) and axis in (0, 1, -1):
+            return self._concatenate2d(arrs, 1 if axis in (1, -1) else 0)
         if axis != 0 or any(a.ndim != 1 for a in arrs):
             raise Unsupported("concatenate other than 1-D along axis 0")
         snaps = [a.snapshot() for a in arrs]
@@ -570,6 +572,41 @@ class _NP:
             return r
 
         return new_array((offs[-1],), fn, k)
+
+    def _concatenate2d(self, arrs, axis):
+        """Rank-2 arrays joined along `axis`; the other dimension must agree (numpy raises ValueError otherwise)."""
+        from .arr import _join_kinds
+
+        c = ctx()
+        other = 1 - axis
+        for a in arrs[1:]:
+            same = a.shape[other] == arrs[0].shape[other]
+            if same is False:
+                raise ValueError("all the input array dimensions except for the concatenation axis must match exactly")
+            if same is not True and bool(not_(same)):
+                raise ValueError("all the input array dimensions except for the concatenation axis must match exactly")
+        snaps = [a.snapshot() for a in arrs]
+        offs = [0]
+        for a in arrs:
+            offs.append(lift(offs[-1] + a.shape[axis]))
+        k = _join_kinds([a.kind for a in arrs])
+
+        def fn(idx):
+            i = idx[axis]
+
+            def pick(j):
+                sub = list(idx)
+                sub[axis] = lift(i - offs[j])
+                return cast_value(snaps[j](*sub), k)
+
+            r = pick(len(arrs) - 1)
+            for j in range(len(arrs) - 2, -1, -1):
+                r = ite(i < offs[j + 1], pick(j), r)
+            return r
+
+        shape = [arrs[0].shape[0], arrs[0].shape[1]]
+        shape[axis] = offs[-1]
+        return new_array(tuple(shape), fn, k)
 
     def column_stack(self, arrs):
         _use("column_stack")
@@ -882,10 +919,17 @@ class _NP:
             raise Unsupported("stack(axis != 0)")
         return from_list([as_array(x) for x in arrs])
 
-    vstack = stack
+    def vstack(self, arrs):
+        arrs = [as_array(x) for x in arrs]
+        if all(a.ndim == 1 for a in arrs):
+            return self.stack(arrs)
+        return self.concatenate(arrs, axis=0)
 
     def hstack(self, arrs):
-        return self.concatenate(arrs)
+        arrs = [as_array(x) for x in arrs]
+        if all(a.ndim == 1 for a in arrs):
+            return self.concatenate(arrs)
+        return self.concatenate(arrs, axis=1)
 
     def count_nonzero(self, a):
         raise Unsupported("count_nonzero")
